@@ -231,6 +231,10 @@ def impl(case):
     Xw, yw, aw = arrs(wb)
     for _ in range(case["warm"]):
         est.partial_fit(Xw, yw, sensitive_features=aw)
+        eng = est.backendEngine_
+        if not all(bool(torch.isfinite(p).all()) for mdl in (eng.predictor_model, eng.adversary_model)
+                   for p in mdl.parameters()):
+            return {"warm_nonfinite": True, "tensors": [], "adv": []}
     X, y, a = arrs(ob)
     if case["warm"] == 0:
         P, U = pm, am                                  # user modules: the very first step is observed
@@ -288,7 +292,7 @@ def _frob(A, B):
 
 
 def _usable(out):
-    return out is not None and all(_finite(t["gP"]) and _finite(t["gA"]) and _finite(t["W"]) for t in out["tensors"]) \
+    return out is not None and not out.get("warm_nonfinite") and all(_finite(t["gP"]) and _finite(t["gA"]) and _finite(t["W"]) for t in out["tensors"]) \
         and all(_finite(t["gU"]) and _finite(t["U"]) for t in out["adv"])
 
 
@@ -379,6 +383,10 @@ def _allpairs_gap(ten):
 
 def compare(case, out, model):
     v = []
+    if out.get("warm_nonfinite"):
+        return [(f"{PID}/partial_fit/predictor-update/non-finite",
+                 "a warm-up partial_fit step on finite data left non-finite parameters",
+                 "parameters stay finite on finite gradients", "property")]
     alpha, lr_p, lr_a = float(case["alpha"]), float(case["lr_p"]), float(case["lr_a"])
     nt = len(out["tensors"])
     if model is not None:
@@ -475,6 +483,8 @@ def tags(case, out, model):
     t = [f"variant:{case['variant']}", f"y:{case['ytype']}", f"a:{case['atype']}", f"c:{case['constraints'][:2]}",
          f"alpha:{case['alpha']}", f"hidden:{sum(1 for x in case['pred'] if isinstance(x, int))}",
          f"zero:{case.get('zero')}"]
+    if not out["tensors"]:
+        return t + ["warm-up-nonfinite"]
     rows = max(_shape(x["W"])[0] for x in out["tensors"])
     t.append(f"maxrows:{rows}")
     if any(_amax(x["gA"]) == 0.0 for x in out["tensors"]):
